@@ -127,7 +127,7 @@ struct RadixEngine : Engine {
 		}
 		if (c09) { // long runs of adjacent leaves that become completely empty (they are never unlinked), iterated over and partly refilled
 			Rng sr; sr.seed(p.seed ^ 0x53574550ull);
-			bool big = sr.chance(1, tier ? 6000 : 30000);
+			bool big = sr.chance(1, tier ? 6000 : 30000) || getenv("SIMRADIX_FORCE_BIG_SWEEP"); // (the environment variable is a debugging aid)
 			if (big || sr.chance(1, 150)) {
 				Op o; o.task = 1; o.id = id++; o.kind = W_SWEEP;
 				o.a[0] = (int64_t)(U[sr.below(U.size())] & ~0xFFFFFull); o.a[1] = big ? 14000 + (int64_t)sr.below(6000) : 66 + (int64_t)sr.below(100); o.a[2] = (int64_t)sr.below(16); o.a[3] = big ? 0 : (int64_t)sr.below(3);
